@@ -957,6 +957,8 @@ def _const_value(node):
         return True
     if isinstance(node, ast.Tuple):
         return 1 <= len(node.elts) <= 24 and all(_const_value(e) for e in node.elts)
+    if isinstance(node, ast.Call) and ast.unparse(node.func) in _CONST_CTORS and not node.keywords and node.args and all(isinstance(a, ast.Constant) for a in node.args):
+        return True          # a pattern compiled from constants: an immutable value, the same wherever the expression is written
     return False
 
 
@@ -1033,11 +1035,96 @@ class _ClassConsts(ast.NodeTransformer):
         return self.generic_visit(n)
 
 
+def module_constants(mod: ast.Module) -> dict:
+    """{name: literal} for names bound exactly once at module level (and by nothing else at module level: def, class, import,
+    loop) to an immutable literal (_const_value), never declared `global` in a function"""
+    count, cand = {}, {}
+    for st in mod.body:
+        if isinstance(st, (ast.FunctionDef, ast.AsyncFunctionDef, ast.ClassDef)):
+            count[st.name] = count.get(st.name, 0) + 1
+            continue
+        for n in ast.walk(st):
+            if isinstance(n, ast.Name) and isinstance(n.ctx, (ast.Store, ast.Del)):
+                count[n.id] = count.get(n.id, 0) + 1
+            elif isinstance(n, ast.alias):
+                nm = (n.asname or n.name).split(".")[0]
+                count[nm] = count.get(nm, 0) + 1
+        tg = st.targets[0] if isinstance(st, ast.Assign) and len(st.targets) == 1 else st.target if isinstance(st, ast.AnnAssign) and st.value is not None else None
+        if isinstance(tg, ast.Name) and _const_value(st.value):
+            cand[tg.id] = st.value
+    if not cand:
+        return {}
+    glob = {nm for n in ast.walk(mod) if isinstance(n, (ast.Global, ast.Nonlocal)) for nm in n.names}
+    return {k: v for k, v in cand.items() if count.get(k, 0) == 1 and k not in glob}
+
+
+class _ModuleConsts(ast.NodeTransformer):
+    """reads of a module-level constant inside the functions of the module -> the literal, unless the name is bound in the function
+    (or in a function enclosing it): parameter, assignment, loop / comprehension / with / except target, nested def, import"""
+
+    def __init__(self, consts):
+        self.consts = consts
+        self.scopes = []
+
+    @staticmethod
+    def _locals(fn):
+        a = fn.args
+        out = {p.arg for p in a.posonlyargs + a.args + a.kwonlyargs} | ({a.vararg.arg} if a.vararg else set()) | ({a.kwarg.arg} if a.kwarg else set())
+        body = fn.body if isinstance(fn.body, list) else [fn.body]
+        for st in body:
+            for n in ast.walk(st):
+                if isinstance(n, ast.Name) and isinstance(n.ctx, (ast.Store, ast.Del)):
+                    out.add(n.id)
+                elif isinstance(n, (ast.FunctionDef, ast.AsyncFunctionDef, ast.ClassDef)):
+                    out.add(n.name)
+                elif isinstance(n, ast.alias):
+                    out.add((n.asname or n.name).split(".")[0])
+                elif isinstance(n, ast.ExceptHandler) and n.name:
+                    out.add(n.name)
+        return out
+
+    def _scoped(self, n):
+        self.scopes.append(self._locals(n))
+        try:
+            return self.generic_visit(n)
+        finally:
+            self.scopes.pop()
+
+    visit_FunctionDef = visit_AsyncFunctionDef = visit_Lambda = _scoped
+
+    def visit_Name(self, n):
+        if self.scopes and isinstance(n.ctx, ast.Load) and n.id in self.consts and not any(n.id in sc for sc in self.scopes):
+            return ast.copy_location(copy.deepcopy(self.consts[n.id]), n)
+        return n
+
+
+class _PatternCalls(ast.NodeTransformer):
+    """`re.compile(P).m(args)` is `re.m(P, args)` for the scanning methods, called with the arguments the module-level function
+    takes too (no pos / endpos): one spelling of a regular-expression scan, whether or not the pattern was compiled first"""
+    NARGS = {"sub": (2, 3), "subn": (2, 3), "split": (1, 2), "findall": (1, 1), "finditer": (1, 1), "search": (1, 1), "match": (1, 1), "fullmatch": (1, 1)}
+
+    def visit_Call(self, n):
+        self.generic_visit(n)
+        f = n.func
+        if isinstance(f, ast.Attribute) and f.attr in self.NARGS and isinstance(f.value, ast.Call) and ast.unparse(f.value.func) == "re.compile" \
+                and len(f.value.args) == 1 and not f.value.keywords and not n.keywords and not any(isinstance(a, ast.Starred) for a in n.args + f.value.args):
+            lo, hi = self.NARGS[f.attr]
+            if lo <= len(n.args) <= hi:
+                return ast.copy_location(ast.Call(func=ast.copy_location(ast.Attribute(value=f.value.func.value, attr=f.attr, ctx=ast.Load()), f),
+                                                  args=[f.value.args[0]] + list(n.args), keywords=[]), n)
+        return n
+
+
 def inline_class_constants(mod, consts: dict):
-    """every read of a class-level constant (class_constants) in the module replaced by its literal"""
-    if not consts:
-        return mod
-    return ast.fix_missing_locations(_ClassConsts(consts).visit(mod))
+    """every read of a class-level constant of the package (class_constants) and, inside functions, of a module-level constant
+    (module_constants) replaced by its literal; scans through a pattern compiled on the spot in their module-function spelling"""
+    if consts:
+        mod = _ClassConsts(consts).visit(mod)
+    mc = module_constants(mod)
+    if mc:
+        mod = _ModuleConsts(mc).visit(mod)
+    mod = _PatternCalls().visit(mod)
+    return ast.fix_missing_locations(mod)
 
 
 # ----------------------------------------------------------------------------------------------------- closure dispatch
